@@ -413,6 +413,13 @@ class DFContainer:
         # When assigning a struct value, we immediately unpack it recursively and only
         # store the leaf wires.
         is_return = isinstance(place, Variable) and is_return_var(place.name)
+        # A wire that was cached for an enclosing struct or tuple no longer reflects the
+        # current value once one of its fields is reassigned: forget it, so the enclosing
+        # value is packed again from its fields when it is needed next
+        parent: Place = place
+        while isinstance(parent, FieldAccess | TupleAccess):
+            parent = parent.parent
+            self.locals.pop(parent.id, None)
         if isinstance(place.ty, StructType) and not is_return:
             unpack = self.builder.add_op(
                 ops.UnpackTuple([t.ty.to_hugr(self.ctx) for t in place.ty.fields]), port
